@@ -101,7 +101,9 @@ damaging R5); the suite stayed green for six of them and all six were reported -
 and all registers under the upper byte 5A, whose bit 24 is clear.  C01 / C04 / C08 now run every address
 register under upper bytes that set and clear every bit (§6).  An eighth probe (the loader copying a segment to
 p_paddr instead of p_vaddr) was invisible because the ELF generator always wrote p_paddr = p_vaddr; C11 now
-also loads files in which they differ (and p_align / e_entry vary).
+also loads files in which they differ (and p_align / e_entry vary).  Two more constants of the harness were
+varied for the same reason: the binding / type / section index of the symbol `___exit` (C12) and the fd word of
+the write call (C14: a write that is carried out for fd <= 2 only was invisible, every scenario used fd 1).
 """)
     out.append(f"""### 11.1 Round 1 - two changes per property ("needs something specific to manifest")
 
